@@ -148,6 +148,35 @@ def k_units(ctx):
                   detail="r_tree=%r" % (r_tree,))
 
 
+SPELLINGS = {   # metres -> ways of writing that radius (the real split_units parses them)
+    800000: ["800 km", "800km", "8e5 m", "8E+2 km", "8.0e7 cm", "800000 m", "800.0 kilometers", "8e2", "0.8e3 km", "+800 km"],
+    5000: ["5 km", "5000 m", "5e3 m", "5", ".5e1 km", "5.000 km", "5000.0m", "5E3 meters"],
+    1609.344: ["1 mile", "1 mi", "1609.344 m", "1.609344 km", "1.609344e3 m", "1760 yards", "5280 ft"],
+}
+
+
+@harness("C06.spellings", cases=lambda tier: [(m, met) for m in sorted(SPELLINGS) for met in ("minkowski", "haversine")],
+         expect=lambda c: ["every-spelling-of-a-radius-selects-the-same-radius"])
+def k_spellings(ctx):
+    """the radius handed to the tree does not depend on how r is written (number formats with exponent,
+    sign, missing blank, unit synonyms); concrete strings through the real split_units."""
+    metres, metric = ctx.case
+    want = metres if metric == "minkowski" else metres / 1000 * (1000. / float(earth_radius))
+    for text in SPELLINGS[metres]:
+        tree = SpecTree(ctx)
+        rnd = SymRandom(ctx)
+        with _env(ctx, tree, rnd):
+            gi = G.GeoIndex(np.array([0.0]), np.array([0.0]), metric=metric, shuffle=False)
+            try:
+                gi.query(np.array([0.0]), np.array([0.0]), text)
+            except ValueError as e:
+                ctx.fail("every-spelling-of-a-radius-selects-the-same-radius", "%r rejected: %s" % (text, e))
+                continue
+        r_tree = float(tree.last.queries[0]["r"])
+        ctx.check("every-spelling-of-a-radius-selects-the-same-radius", abs(r_tree - want) <= 1e-9 * want,
+                  detail="%r gives %r, expected %r" % (text, r_tree, want))
+
+
 @harness("C06.bad-radius", cases=lambda tier: ["unknown-unit", "zero-length", "not-a-string"],
          expect=lambda c: ["rejected-with-ValueError"])
 def k_bad(ctx):
@@ -168,19 +197,20 @@ def k_bad(ctx):
 
 
 PLAN = {
-    "quick": {"harnesses": ["C06.bookkeeping", "C06.radius-units", "C06.bad-radius"],
+    "quick": {"harnesses": ["C06.bookkeeping", "C06.radius-units", "C06.spellings", "C06.bad-radius"],
               "opts": {"query_timeout_ms": 10000}},
-    "thorough": {"harnesses": ["C06.bookkeeping", "C06.radius-units", "C06.bad-radius"],
+    "thorough": {"harnesses": ["C06.bookkeeping", "C06.radius-units", "C06.spellings", "C06.bad-radius"],
                  "opts": {"query_timeout_ms": 20000}},
 }
 BOUNDS = {"quick": {"index bookkeeping": "build points n_b <= 3, query points n_q <= 2 ((2,2), (3,1)); every "
                     "membership matrix, every report order of the tree, every shuffle permutation, "
                     "shuffle on/off, return_distance on/off, both tree classes, both metrics",
-                    "radius": "every unit spelling of the table x both metrics, any positive length"},
+                    "radius": "every unit spelling of the table x both metrics, any positive length; 25 concrete spellings (exponents, signs, missing blank, "
+                              "synonyms) of three radii through the real split_units"},
           "thorough": {"index bookkeeping": "adds (3,2), (4,1), (3,3), (4,2), (5,1)"}}
 OUTSIDE = ["sklearn's BallTree/KDTree themselves (their documented query_radius contract is the stub)",
            "the metric embedding lat/lon -> 3-D cartesian / radians (trigonometric; needs the angle algebra of DESIGN 2.3, not built)",
-           "float parsing in split_units", "NumPy's RNG", "leaf_size (passed through to the tree)"]
+           "float parsing in split_units beyond the listed spellings", "NumPy's RNG", "leaf_size (passed through to the tree)"]
 STUBS = ["SpecTree for BallTree/KDTree: arbitrary membership, order and distances",
          "numpy.random.shuffle -> arbitrary permutation", "split_units -> (symbolic length, unit string)"]
 ASSUMPTIONS = ["exact real arithmetic for radius and distances"]
